@@ -92,6 +92,36 @@ theorem C15_getstring_exact (m : Mem) (hP : 0 < m.P) (addr pathMax z : Nat) (hz 
   simp only [sliceTo, hle, if_true]
   rw [take_clen, takeWhile_pad, takeWhile_bytes m addr z t' ht h0 hnz]
 
+/-- **maximal prefix at a fault**: a string that runs into an unreadable page — the first
+unreadable byte is at offset `u` below PATH_MAX, every byte before it is readable and none of them is
+NUL — is returned up to exactly that byte: all `u` bytes the tracee can itself read there, nothing
+invented after them, nothing dropped before them (wherever the page boundaries fall; `u = 0` is the
+pointer into unmapped memory and yields the empty string). Together with `C15_getstring_exact` this
+determines GetString for every string shorter than PATH_MAX. -/
+theorem C15_getstring_fault_prefix (m : Mem) (hP : 0 < m.P) (addr pathMax u : Nat) (hu : u < pathMax)
+    (hun : m.readable (addr + u) = false) (hnz : ∀ i, i < u → m.byte (addr + i) ≠ 0)
+    (hread : ∀ i, i < u → m.readable (addr + i) = true) :
+    getString m addr pathMax = .ok (m.bytes addr u) := by
+  unfold getString getStringWith
+  have hmod : addr % m.P < m.P := Nat.mod_lt _ hP
+  have hnext : (if m.P - addr % m.P = 0 then m.P else m.P - addr % m.P) = m.P - addr % m.P := by
+    split <;> omega
+  have hfail : (vmReadStr m addr pathMax).1 = true := by
+    unfold vmReadStr
+    simp only [hnext]
+    exact readLoop_fault m addr u hP hun hnz hread (pathMax + 1) 0 pathMax _ [] (by omega) (by omega) (by simp; omega) (by omega) (by omega)
+  generalize hv : vmReadStr m addr pathMax = v at hfail
+  obtain ⟨failed, acc⟩ := v
+  simp only at hfail
+  subst hfail
+  simp only [if_true]
+  have hpeek : peekPrefix m addr pathMax = m.bytes addr u := by
+    unfold peekPrefix Mem.bytes
+    rw [takeWhile_range_first (fun i => m.readable (addr + i)) u pathMax hu hread hun]
+  have hle : clen (pad (peekPrefix m addr pathMax) pathMax) ≤ (pad (peekPrefix m addr pathMax) pathMax).length := clen_le _
+  simp only [sliceTo, hle, if_true]
+  rw [take_clen, takeWhile_pad, hpeek, takeWhile_bytes_all m addr u hnz]
+
 /-- the pinned tree's `clen` (returns len+1 without NUL) makes GetString **panic** on a
 PATH_MAX-long unterminated string: the witness that forced the `fix:` (page 4, PATH_MAX 8 scale). -/
 theorem C15_clen_witness :
@@ -147,6 +177,8 @@ theorem C15_skip_failure_fails_closed :
 /-! non-vacuity -/
 example : (lists3 5).length = 364 := by decide +kernel
 example : stopEvents.length = 13 := by decide +kernel
+example : getString ⟨4, fun p => p == 0, fun _ => 66⟩ 1 8 = .ok [66, 66, 66] :=
+  C15_getstring_fault_prefix _ (by decide) 1 8 3 (by decide) (by decide) (by intro i _; simp) (by intro i hi; simp [Mem.readable]; omega)
 example : (match getString ⟨4, fun p => p == 0, fun a => if a == 2 then 0 else 66⟩ 1 8 with
     | .ok s => s == [66] | .error _ => false) = true := by decide
 
